@@ -407,7 +407,10 @@ do_rmap(Model& m, int i)
         return;
     }
     if (r.cursor + len > m.S_inv)
-        oracle_fail("C01.read_beyond_committed",
+        // (C02 states it too: a reader's region lies inside the committed data)
+        oracle_fail(oracle_gates("C02.read_region_outside_committed")
+                      ? "C02.read_region_outside_committed"
+                      : "C01.read_beyond_committed",
                     "reader %d: mapping of %zu bytes at stream offset %llu "
                     "extends past the %llu committed bytes",
                     i, len, (unsigned long long)r.cursor,
@@ -1327,7 +1330,8 @@ struct Reg
         c.reach_probes = { "reach.writer_blocked", "reach.write_refused",
                            "k.broadcast_no_waiters",
                            "reach.reader_stops_holding",
-                           "k.spurious_wakeups" };
+                           "k.spurious_wakeups",
+                           "n.quiescent_with_writer_waiting" };
         register_check(c);
     }
 } g_reg;
